@@ -215,6 +215,106 @@ def seq_task(kind, names):
     return res
 
 
+def undo_scenarios(kind):
+    """A writer that still holds a revision whose transaction is undone
+    (incl. the creating one) or whose object is deleted meanwhile must get a
+    conflict, and nothing of its write may be stored."""
+    import os
+    import transaction
+    from mc import hclasses, world
+    env.install()
+    res = schedx._new_res()
+    seen = set()
+    CE = env.mod('ZODB.POSException').ConflictError
+    PK = env.mod('ZODB.POSException').POSKeyError
+    for what in ('undo-creation', 'undo-modification', 'delete'):
+        if what == 'delete' and kind != 'F':
+            continue        # no deleteObject on a demo storage
+        for reader_cached in (True, False):
+            env.reset_globals()
+            d = env.new_dir('us')
+            FS = env.mod('ZODB.FileStorage.FileStorage').FileStorage
+            MS = env.mod('ZODB.MappingStorage').MappingStorage
+            DS = env.mod('ZODB.DemoStorage').DemoStorage
+            st = FS(os.path.join(d, 'Data.fs'))
+            if kind == 'DMF':
+                st = DS(base=MS('b'), changes=st)
+            db = env.mod('ZODB.DB').DB(st)
+            wit = dict(scenario=dict(kind=kind, what=what,
+                                     cached=reader_cached))
+            try:
+                tm1 = transaction.TransactionManager()
+                c1 = db.open(tm1)
+                z = hclasses.P()
+                z.v = 1
+                c1.root()['z'] = z
+                env.CLOCK.now += 1
+                tm1.get().note('create')
+                tm1.commit()
+                if what == 'undo-modification':
+                    z.v = 2
+                    env.CLOCK.now += 1
+                    tm1.get().note('modify')
+                    tm1.commit()
+                tm2 = transaction.TransactionManager()
+                c2 = db.open(tm2)
+                z2 = c2.root()['z']
+                held = z2.v
+                oid, serial = z2._p_oid, z2._p_serial
+                env.CLOCK.now += 1
+                if what == 'delete':
+                    del c1.root()['z']
+                    tm1.commit()
+                    t = world.TMD(b'', b'delete')
+                    env.CLOCK.now += 1
+                    s0 = db.storage
+                    s0.tpc_begin(t)
+                    s0.deleteObject(oid, serial, t) if hasattr(
+                        s0, 'deleteObject') else None
+                    s0.tpc_vote(t)
+                    s0.tpc_finish(t)
+                else:
+                    info = db.undoInfo(0, 5)
+                    db.undo(info[0]['id'], tm1.get())
+                    tm1.commit()
+                before = db.storage.lastTransaction()
+                # the second connection has not crossed a boundary: it still
+                # holds its copy and writes it
+                z2.v = 99
+                env.CLOCK.now += 1
+                try:
+                    tm2.commit()
+                    out = 'committed'
+                except (CE, PK) as e:
+                    tm2.abort()
+                    out = 'refused'
+                except Exception as e:      # noqa: B902
+                    tm2.abort()
+                    out = type(e).__name__
+                res['cov']['evaluations'] += 1
+                res['cov']['states'] += 1
+                res['cov']['traces_validated_against_impl'] += 1
+                res['cov']['distinct_nontrivial'] += 1
+                res['outcomes']['undo-scenario:%s' % out] = \
+                    res['outcomes'].get('undo-scenario:%s' % out, 0) + 1
+                stored = db.storage.lastTransaction() != before
+                if out != 'refused' or stored:
+                    fs = 'C03.conflict:%s:write-over-%s:%s' % (
+                        kind, what, out)
+                    if fs not in seen:
+                        seen.add(fs)
+                        res['violations'].append((
+                            'C03.conflict', fs, wit,
+                            dict(outcome=out, stored=stored, held=held), 1))
+            finally:
+                try:
+                    db.close()
+                except Exception:
+                    pass
+                env.rm_dir(d)
+    return res
+
+
 def run(rep, tier, seed, workers):
     bound = 2 if tier == 'quick' else 3
     rep.rule = (
@@ -240,8 +340,9 @@ def run(rep, tier, seed, workers):
     for kind in KINDS:
         for pair in itertools.combinations_with_replacement(names, 2):
             tasks.append((MOD, 'seq_task', (kind, pair)))
+    tasks += [(MOD, 'undo_scenarios', (k,)) for k in ('F', 'DMF')]
     par.run_tasks(tasks, workers, rep, seed)
-    rep.bounds['interleaved program pairs'] = len(tasks)
+    rep.bounds['interleaved program pairs'] = len(tasks) - 2
     rep.cov['distinct_nontrivial'] = len(rep.outcomes)
     rep.assumptions = [
         'objects of a class without conflict resolution (resolution is C10)',
@@ -250,7 +351,10 @@ def run(rep, tier, seed, workers):
 
 def replay(w):
     wit = w['witness']
-    if 'seq' in wit:
+    if 'scenario' in wit:
+        r = undo_scenarios(wit['scenario']['kind'])
+        viol = r['violations']
+    elif 'seq' in wit:
         r = seq_task(wit['seq']['kind'], tuple(wit['seq']['programs']))
         viol = r['violations']
     else:
